@@ -87,6 +87,13 @@ REG["C19"] = dict(
     assumptions=["sort.Slice is modelled by a stable insertion sort using the caller's less function"],
 )
 
+REG["C10"] = dict(
+    harnesses=[H(P, "VerifH_C10_optionalSort"), H(P, "VerifH_C10_nullOrderingLaws"), H(P, "VerifH_C10_repeatedSort")],
+    explanation="(K1) optionalColumnBuffer over a real int64 column buffer: rows with symbolic keys and every null mask are written in two batches, sorted with the standard library's sort.Sort (executed from SSA) and materialised with Page(); the page holds every written value exactly once with its level (values carry distinct tags), nulls are where the null ordering says and non-null values are ascending/descending as configured. (K2) nullsGoFirst/nullsGoLast are strict weak orders (irreflexive, asymmetric, transitive, transitive incomparability) for symbolic values and all definition-level triples. (K3) repeatedColumnBuffer.Less equals the lexicographic order over all values of the two rows, and sorting keeps every row intact and in that order.",
+    bounds={"quick": "K1: n<=3 rows, 2 batches, both null orderings, ascending/descending; K2: 3 values x 27 level triples; K3: 2 rows of 1..2 values", "thorough": "K1: n<=4; K3: 3 rows"},
+    outside=["column_buffer_amd64.s fill kernel", "SortingWriter (temp file + merge + WriteRowGroup glue)", "RowBuffer", "multi-column tie-breaking against Schema.Comparator (DESIGN K4 not built yet)", "repeated rows containing nulls"],
+)
+
 LEVEL_TEXT = "bounded symbolic execution of the real functions (go/ssa of the current /repo tree) with an SMT solver deciding every assertion for all inputs inside the stated bounds; counterexamples are replayed against the natively compiled code before being reported"
 
 def main():
